@@ -199,7 +199,9 @@ def run_interpreter(model_bytes, spec, sample):
       v = np.asarray(x).astype(d['dtype']).reshape(shape)
     it.set_tensor(d['index'], v)
   it.invoke()
-  return core.digest([it.get_tensor(d['index']) for d in it.get_output_details()])
+  outs = [it.get_tensor(d['index']) for d in it.get_output_details()]
+  finite = all(np.all(np.isfinite(o)) for o in outs if o.dtype.kind == 'f')
+  return core.digest(outs) + ('' if finite else ':nonfinite')
 
 
 def contained(fn):
@@ -235,21 +237,54 @@ def contained(fn):
   return val if kind == 'ok' else 'raise:' + val
 
 
-def layout_variant(model_bytes):
+def layout_variant(model_bytes, interleave=False):
   """The same model with a different byte layout: buffer table reversed (buffer 0 stays), tensor
-  and metadata buffer indices remapped."""
+  and metadata buffer indices remapped; with interleave, an unreferenced 96-byte buffer of 0xA5
+  bytes (float32 -3.0e-16 / float16 -0.0201) follows every real buffer instead."""
   from tensorflow.lite.tools import flatbuffer_utils
+  from ai_edge_litert import schema_py_generated as sch
   m = flatbuffer_utils.read_model_from_bytearray(bytearray(model_bytes))
   n = len(m.buffers)
-  perm = [0] + list(range(n - 1, 0, -1))           # new index -> old index
-  inv = {old: new for new, old in enumerate(perm)}
-  m.buffers = [m.buffers[old] for old in perm]
+  if interleave:
+    new_buffers, inv = [], {}
+    for old, b in enumerate(m.buffers):
+      inv[old] = len(new_buffers)
+      new_buffers.append(b)
+      if old > 0:
+        pad = sch.BufferT()
+        pad.data = np.full(96, 0xA5, dtype=np.uint8)
+        new_buffers.append(pad)
+    m.buffers = new_buffers
+    perm = None
+  else:
+    perm = [0] + list(range(n - 1, 0, -1))           # new index -> old index
+    inv = {old: new for new, old in enumerate(perm)}
+    m.buffers = [m.buffers[old] for old in perm]
   for sg in m.subgraphs:
     for t in sg.tensors:
       t.buffer = inv[t.buffer]
   for md in (m.metadata or []):
     md.buffer = inv.get(md.buffer, md.buffer)
   return bytes(flatbuffer_utils.convert_object_to_bytearray(m))
+
+
+def float16_only_feeds_dequantize(model_bytes):
+  """A float16 constant must reach its consumer through a DEQUANTIZE. On this tree the quantizer
+  sometimes leaves the consumer wired to the float16 tensor itself (seen when the consumer's
+  activation operand is also a graph output): the kernel then reads the 2-byte weights as 4-byte
+  floats, past the end of the buffer. That is an ill-typed model (C01/C03), equally ill-typed in
+  both forms, and its runtime result is not a function of the model."""
+  from tensorflow.lite.tools import flatbuffer_utils
+  from ai_edge_litert import schema_py_generated as sch
+  m = flatbuffer_utils.read_model_from_bytearray(bytearray(model_bytes))
+  for sg in m.subgraphs:
+    for o in sg.operators:
+      if m.operatorCodes[o.opcodeIndex].builtinCode == sch.BuiltinOperator.DEQUANTIZE:
+        continue
+      for i in o.inputs:
+        if i != -1 and sg.tensors[i].type == sch.TensorType.FLOAT16:
+          return False
+  return True
 
 
 def skip_checks_in_recipe(q):
@@ -374,17 +409,24 @@ def execute(doc):
       rec.event(step, 'quantize', 'structural-violation')
       break
     sample = data[0]
-    if not valid_execution_order(small):
+    if not valid_execution_order(small) or not float16_only_feeds_dequantize(small):
       # Operators out of execution order (C01's business, seen on this tree when a QUANTIZE
       # or DEQUANTIZE is inserted next to a graph output): the runtime then reads tensors
       # before they are written and its outputs are not a function of the model. Both
       # forms carry the same defect (the trees are equal); no behavioural comparison.
-      rec.probe('malformed_order_skipped')
+      rec.probe('malformed_order_skipped' if not valid_execution_order(small) else 'ill_typed_float16_skipped')
       rec.event(step, 'quantize', 'large-ok', core.sha(small), len(large) - len(small))
       rec.state(core.sha(small), th)
       continue
     a = contained(lambda: run_interpreter(small, spec, sample))
     a2 = contained(lambda: run_interpreter(small, spec, sample))
+    if str(a).endswith(':nonfinite'):
+      # NaN/Inf out of finite inputs and small finite weights: the ordinary model itself computes
+      # garbage (in every case seen: a kernel reading past an ill-typed operand); not comparable.
+      rec.probe('ordinary_form_nonfinite_skipped')
+      rec.event(step, 'quantize', 'large-ok', core.sha(small), len(large) - len(small))
+      rec.state(core.sha(small), th)
+      continue
     if a == a2:
       # The comparison of the two forms presupposes that the runtime's result is a function of
       # the model. For ill-typed outputs (C01/C03 defects of this tree, e.g. a CONV_2D left reading
@@ -393,6 +435,9 @@ def execute(doc):
       # the same ordinary model with its buffer table permuted must give the same outputs.
       variant = layout_variant(small)
       av = contained(lambda: run_interpreter(variant, spec, sample))
+      if av == a:
+        variant2 = layout_variant(small, interleave=True)
+        av = contained(lambda: run_interpreter(variant2, spec, sample))
       if av != a:
         rec.probe('runtime_layout_sensitive_skipped')
         rec.event(step, 'quantize', 'large-ok', core.sha(small), len(large) - len(small))
